@@ -17,9 +17,11 @@ type stackStorage[V any] struct {
 	data []V
 }
 
-func (s *stackStorage[V]) set(n int, v V) {
+// set stores v at index n. base is the number of stack slots the callers
+// already use on other storages, see NewEmptyStackBelow.
+func (s *stackStorage[V]) set(n int, v V, base int) {
 	if n == len(s.data) {
-		if n > 10000 {
+		if base+n > 10000 {
 			panic("stack overflow; maybe a recursive function does not terminate")
 		}
 		s.data = append(s.data, v)
@@ -36,6 +38,7 @@ type Stack[V any] struct {
 	storage *stackStorage[V]
 	offs    int
 	size    int
+	base    int
 }
 
 func NewEmptyStack[V any]() Stack[V] {
@@ -44,6 +47,18 @@ func NewEmptyStack[V any]() Stack[V] {
 		offs:    0,
 		size:    0,
 	}
+}
+
+// NewEmptyStackBelow creates an empty stack with a storage of its own, like
+// NewEmptyStack, which continues the depth count of the given stack. It is to
+// be used if a closure is evaluated on a private stack (because it may run on
+// another goroutine) while the evaluation that causes it is still in progress
+// on the parent stack. This way the recursion limit also covers a recursion
+// that passes through such closures.
+func NewEmptyStackBelow[V any](parent Stack[V]) Stack[V] {
+	st := NewEmptyStack[V]()
+	st.base = parent.base + parent.offs + parent.size
+	return st
 }
 
 func NewStack[V any](v ...V) Stack[V] {
@@ -74,7 +89,7 @@ func (s Stack[V]) Size() int {
 }
 
 func (s *Stack[V]) Push(v V) {
-	s.storage.set(s.offs+s.size, v)
+	s.storage.set(s.offs+s.size, v, s.base)
 	s.size++
 }
 
@@ -84,6 +99,7 @@ func (s *Stack[V]) CreateFrame(size int) Stack[V] {
 		storage: s.storage,
 		offs:    s.offs + s.size,
 		size:    size,
+		base:    s.base,
 	}
 	return st
 }
